@@ -325,6 +325,12 @@ func c09(c *core.Ctx, r *core.Report) {
 	}
 	sites, okSites := 0, 0
 	byClass := map[string]int{}
+	scanBodies, scanOK := defScanRules(c, r, func(row string) string {
+		if row == "error" {
+			return "C09.E1"
+		}
+		return ""
+	})
 	for _, fn := range fns {
 		if p := core.PkgOf(fn); p != nil && core.IsSyslogPath(p.Pkg.Path()) {
 			continue
@@ -383,10 +389,20 @@ func c09(c *core.Ctx, r *core.Report) {
 				byClass["callback-returns-nil"]++
 				okSites++
 				r.Hold("C09.E1", cons, pos, "exception: the iterator only forwards its callback's error and the callback passed here returns the nil constant on every path")
-			case u.Class == core.ErrSwallow && strings.HasSuffix(name, "strconv2.ParseAny") && strings.Contains(core.FnName(fn), "container.FuncNameAndResult"):
+			case u.Class == core.ErrSwallow && strings.HasSuffix(name, "strconv2.ParseAny") && withinRole(c, fn, func(g *ssa.Function) bool {
+			return core.TopLevel(g) == c.Func("container", "FuncNameAndResult")
+		}, 3):
 				byClass["parse-or-literal"]++
 				okSites++
 				r.Hold("C09.E1", cons, pos, "exception: func-tag result matching falls back to comparing with the literal text when it does not parse")
+			case (u.Class == core.ErrSwallow || u.Class == core.ErrDropped) && (scanBodies[core.TopLevel(fn)] || scanBodies[fn]):
+				if scanOK {
+					byClass["accumulate-then-test"]++
+					okSites++
+					r.Hold("C09.E1", cons, pos, "exception: goroutine body of the parallel definition scan hands the error to the collector; the scan table decides that any such error becomes a non-nil result after the scanner's fan-out")
+				} else {
+					r.Fail("C09.E1", cons, pos, "error of a definition scanner is collected, but the scan table does not show that it reaches the result")
+				}
 			case u.Class == core.ErrSwallow && fn.Parent() != nil:
 				if ok, why := accumulateThenTest(c, call); ok {
 					byClass["accumulate-then-test"]++
